@@ -24,6 +24,7 @@ import logging
 import os
 import re
 import sys
+import threading
 
 REPO = os.environ.get('VERIF_REPO', '/repo')
 
@@ -338,9 +339,17 @@ class ProbeFSM(state_mod.FSM):
 
 
 class Rig:
-    '''one fresh FSM plus everything around it; exactly one Rig is live at a time'''
+    '''one FSM plus everything around it; exactly one Rig is live at a time.
 
-    def __init__(self, doctest=False, archive_mode='sync', reopen_result=False, initial_state='starting'):
+    reuse=False: a new FSM is constructed (FSM.__init__ runs).  reuse=True (the enumerations, for speed): the FSM
+    constructed first in this process for the same (doctest, initial state) is taken again after its instance
+    dictionary has been put back, generically, to the copy taken right after FSM.__init__ (threading.Event
+    members get their flag back); the callers cross-check reuse against construction on a sample of histories.
+    '''
+
+    _pristine = {}
+
+    def __init__(self, doctest=False, archive_mode='sync', reopen_result=False, initial_state='starting', reuse=False):
         global CURRENT  # pylint: disable=global-statement
         install()
         CURRENT = self
@@ -359,12 +368,26 @@ class Rig:
             lst.clear()
         farm._time.clear()  # pylint: disable=protected-access
         schedule.que.clear()
-        real_stdout = sys.stdout
-        sys.stdout = self.stdout
-        try:
-            self.fsm = ProbeFSM(initial_state=initial_state, doctest_=doctest)
-        finally:
-            sys.stdout = real_stdout
+        cached = Rig._pristine.get((doctest, initial_state)) if reuse else None
+        if cached is None:
+            real_stdout = sys.stdout
+            sys.stdout = self.stdout
+            try:
+                self.fsm = ProbeFSM(initial_state=initial_state, doctest_=doctest)
+            finally:
+                sys.stdout = real_stdout
+            if reuse:
+                flags = {k: v.is_set() for k, v in self.fsm.__dict__.items() if isinstance(v, threading.Event)}
+                Rig._pristine[(doctest, initial_state)] = (self.fsm, dict(self.fsm.__dict__), flags)
+        else:
+            self.fsm, saved, flags = cached
+            self.fsm.__dict__.clear()
+            self.fsm.__dict__.update(saved)
+            for k, was_set in flags.items():
+                if was_set:
+                    saved[k].set()
+                else:
+                    saved[k].clear()
         self.fsm.__dict__['_probe_rig'] = self
         self.fsm.wait_timeout = 0  # Event.wait(0): same answer, no 1 ms stall per question
         dawgie.context.fsm = self.fsm
